@@ -1,6 +1,8 @@
 
 type __ = Obj.t
 
+val negb : bool -> bool
+
 type nat =
 | O
 | S of nat
@@ -24,14 +26,24 @@ val add : nat -> nat -> nat
 
 module Nat :
  sig
+  val sub : nat -> nat -> nat
+
   val leb : nat -> nat -> bool
 
   val ltb : nat -> nat -> bool
+
+  val divmod : nat -> nat -> nat -> nat -> nat * nat
+
+  val modulo : nat -> nat -> nat
  end
+
+val nth : nat -> 'a1 list -> 'a1 -> 'a1
 
 val rev : 'a1 list -> 'a1 list
 
 val map : ('a1 -> 'a2) -> 'a1 list -> 'a2 list
+
+val existsb : ('a1 -> bool) -> 'a1 list -> bool
 
 val firstn : nat -> 'a1 list -> 'a1 list
 
@@ -48,11 +60,38 @@ type n =
 
 module Pos :
  sig
+  type mask =
+  | IsNul
+  | IsPos of positive
+  | IsNeg
+ end
+
+module Coq_Pos :
+ sig
   val succ : positive -> positive
 
   val add : positive -> positive -> positive
 
   val add_carry : positive -> positive -> positive
+
+  val pred_double : positive -> positive
+
+  type mask = Pos.mask =
+  | IsNul
+  | IsPos of positive
+  | IsNeg
+
+  val succ_double_mask : mask -> mask
+
+  val double_mask : mask -> mask
+
+  val double_pred_mask : positive -> mask
+
+  val sub_mask : positive -> positive -> mask
+
+  val sub_mask_carry : positive -> positive -> mask
+
+  val mul : positive -> positive -> positive
 
   val compare_cont : comparison -> positive -> positive -> comparison
 
@@ -63,20 +102,46 @@ module Pos :
 
 module N :
  sig
+  val succ_double : n -> n
+
+  val double : n -> n
+
   val add : n -> n -> n
+
+  val sub : n -> n -> n
+
+  val mul : n -> n -> n
 
   val compare : n -> n -> comparison
 
   val eqb : n -> n -> bool
 
+  val leb : n -> n -> bool
+
   val ltb : n -> n -> bool
+
+  val min : n -> n -> n
+
+  val max : n -> n -> n
+
+  val pos_div_eucl : positive -> n -> n * n
+
+  val div_eucl : n -> n -> n * n
+
+  val div : n -> n -> n
  end
 
 type kc = n * n
 
+val keys : kc list -> n list
+
+val total : kc list -> n
+
 val lookup : n -> kc list -> n option
 
 val rm : n -> kc list -> kc list
+
+val mem : n -> n list -> bool
 
 type call =
 | Access of n * n
@@ -98,6 +163,8 @@ type policy = { pinit : __; pstep : (__ -> call -> __ * out);
 type pst = __
 
 val prun : policy -> pst -> call list -> pst * out list
+
+val round_div : n -> n -> n
 
 type lru_list = kc list
 
@@ -168,3 +235,115 @@ val clock_evict_one : clock -> (ent * clock) option
 val clock_step : clock -> call -> clock * out
 
 val clockP : policy
+
+type slru = { sl_prob : lru_list; sl_prot : lru_list }
+
+val ll_has : n -> lru_list -> bool
+
+val ll_pop_back : lru_list -> (kc * lru_list) option
+
+val slru_prob_capacity : n -> n
+
+val slru_prot_capacity : n -> n
+
+val slru_maintain : nat -> n -> lru_list -> lru_list -> lru_list * lru_list
+
+val slru_maintain_all : n -> slru -> slru
+
+val slru_access : n -> n -> n -> slru -> slru
+
+val slru_admit_internal : n -> n -> slru -> slru
+
+val slru_peek_lru : slru -> n option
+
+val slru_admit : n -> n -> slru -> slru
+
+val slru_remove : n -> slru -> slru
+
+val slru_evict : n -> n -> slru -> (slru * n list) * n
+
+val slru_step : n -> slru -> call -> slru * out
+
+val slru_tr : slru -> kc list
+
+val slruP : n -> policy
+
+type 'rs rnd = kc list * 'rs
+
+val rnd_one :
+  ('a1 -> n list -> nat * 'a1) -> 'a1 rnd -> (ent * 'a1 rnd) option
+
+val rnd_step :
+  ('a1 -> n list -> nat * 'a1) -> 'a1 rnd -> call -> 'a1 rnd * out
+
+val randomP : ('a1 -> n list -> nat * 'a1) -> 'a1 -> policy
+
+val index_of : n -> n list -> nat
+
+val replay_choose : n list -> n list -> nat * n list
+
+val randomReplayP : n list -> policy
+
+type arc = { a_p : n; a_t1 : lru_list; a_t2 : lru_list; a_b1 : lru_list;
+             a_b2 : lru_list }
+
+val ghost_push : n -> n -> n -> lru_list -> lru_list
+
+val arc_replace : n -> bool -> arc -> (kc * arc) option
+
+val arc_access : n -> n -> arc -> arc
+
+val arc_delta : n -> n -> n
+
+val arc_ghost_adapt : n -> n -> arc -> arc * bool
+
+val arc_admit_fresh : n -> n -> n -> arc -> bool -> arc
+
+val arc_admit : n -> n -> n -> arc -> arc
+
+val arc_remove : n -> arc -> arc
+
+val arc_evict_one : n -> arc -> (ent * arc) option
+
+val arc_step : n -> arc -> call -> arc * out
+
+val arc_tr : arc -> kc list
+
+val arcP : n -> policy
+
+val tl_window_target : n -> n
+
+val tl_main_prot_capacity : n -> n
+
+type 'sk tlfu = { tl_win : lru_list; tl_main : slru; tl_sk : 'sk }
+
+val tl_window_loop :
+  ('a1 -> n -> n) -> nat -> n -> 'a1 -> lru_list -> slru -> n list ->
+  (lru_list * slru) * n list
+
+val tl_access : ('a1 -> n -> 'a1) -> n -> n -> n -> 'a1 tlfu -> 'a1 tlfu
+
+val tl_admit :
+  ('a1 -> n -> 'a1) -> ('a1 -> n -> n) -> n -> n -> n -> 'a1 tlfu -> 'a1
+  tlfu * out
+
+val tl_remove : n -> 'a1 tlfu -> 'a1 tlfu
+
+val tl_evict : n -> n -> 'a1 tlfu -> ('a1 tlfu * n list) * n
+
+val tl_step :
+  ('a1 -> n -> 'a1) -> ('a1 -> n -> n) -> ('a1 -> 'a1) -> n -> 'a1 tlfu ->
+  call -> 'a1 tlfu * out
+
+val tl_tr : 'a1 tlfu -> kc list
+
+val tinyLfuP :
+  ('a1 -> n -> 'a1) -> ('a1 -> n -> n) -> ('a1 -> 'a1) -> 'a1 -> n -> policy
+
+type replay_sk = n list * n list list
+
+val replay_incr : replay_sk -> n -> replay_sk
+
+val replay_est : replay_sk -> n -> n
+
+val tinyLfuReplayP : n list list -> n -> policy
